@@ -333,6 +333,15 @@ def timing_program(shape, l0, l1, l2, l3):
         # empty parallel / sequential blocks at the start and in the middle of the branches of a parallel block
         body = [["parallel_block", ["sequential_block", ["parallel_block"]] + [G() for _ in range(l0)] + [["parallel_block"]] + [G() for _ in range(l1)], seq(l2)],
                 ["parallel_block", ["sequential_block", ["sequential_block"]] + [G() for _ in range(l3)] + [["parallel_block", ["sequential_block"]], G()], G()]]
+    elif shape == 7:
+        # a loop inside a parallel block, visited after a nested parallel block has been left (same branch if l3 is
+        # even, a later branch otherwise): must be rejected
+        inner = ["sequential_block", ["parallel_block", G(), G()]] + [G() for _ in range(l0)]
+        lp = ["loop", 2, seq(l1)]
+        if l3 % 2 == 0:
+            body = [["parallel_block", inner + [lp], seq(l2)]]
+        else:
+            body = [["parallel_block", inner, ["sequential_block"] + [G() for _ in range(l2)] + [lp]]]
     else:
         # a loop nested inside a parallel block: must be rejected
         body = [["parallel_block", ["sequential_block", G()] + [G() for _ in range(l0)] + [["loop", 2, seq(l1)]], G()]]
@@ -398,12 +407,12 @@ def c19_timing(shape: int, l0: int, l1: int, l2: int, l3: int) -> str:
     try:
         out = normalize_blocks_with_unitary_timing(c)
     except JaqalError as ex:
-        if shape == 5:
+        if shape in (5, 7):
             return ""
         return f"valid program rejected: {ex} :: {sx}"
     except Exception as ex:
         return f"non-JaqalError escaped: {exc(ex)} :: {sx}"
-    if shape == 5:
+    if shape in (5, 7):
         return f"loop inside a parallel block accepted :: {sx}"
     v = _flat_violation(out.body)
     if v:
